@@ -57,7 +57,9 @@ const (
 	c31KeyAccount   = "C31/accounting/packet-not-counted-exactly-once"
 	c31KeyDropEarly = "C31/drops/dropped-although-a-buffer-had-room"
 	c31KeyDropDeliv = "C31/drops/packet-counted-as-dropped-was-forwarded"
-	c31KeyDropRep   = "C31/drops/dropped-bytes-not-reported-upstream"
+	c31KeyDropRep   = "C31/drops/reported-less-than-dropped"
+	c31KeyDropMore  = "C31/drops/reported-more-than-dropped"
+	c31KeyDropLate  = "C31/drops/report-not-sent-within-15s"
 	c31KeyStats     = "C31/accounting/stats-differ-from-per-packet-outcomes"
 	c31KeyNoAddr    = "C31/delay/accepted-into-sender-that-has-no-upstream-address"
 	c31KeyHang      = "C31/delay/hung-upstream-write-never-times-out"
@@ -136,6 +138,7 @@ type c31Up struct {
 	mu         sync.Mutex
 	conns      []*c31Conn
 	stalled    atomic.Bool
+	throttleUs atomic.Int64 // > 0: read at most 2 KB, then sleep that many microseconds (a slow upstream)
 	closeAfter []int // by accept index; 0 = never
 	wg         sync.WaitGroup
 }
@@ -252,7 +255,12 @@ func (c *c31Conn) read(limit int) {
 		for c.up.stalled.Load() {
 			time.Sleep(2 * time.Millisecond)
 		}
-		n, err := c.nc.Read(tmp)
+		rb := tmp
+		if th := c.up.throttleUs.Load(); th > 0 {
+			rb = tmp[:2048]
+			time.Sleep(time.Duration(th) * time.Microsecond)
+		}
+		n, err := c.nc.Read(rb)
 		now := time.Now()
 		if n > 0 {
 			pend = append(pend, tmp[:n]...)
@@ -298,6 +306,60 @@ func (c *c31Conn) read(limit int) {
 	}
 }
 
+// c31ParseReport recognises a __src_client_write_err frame body and returns the reported byte count.
+func c31ParseReport(body []byte, hostTag string) (float64, bool) {
+	var batch tlstatshouse.AddMetricsBatch
+	if rest, err := batch.ReadTL1Boxed(body); err == nil && len(rest) == 0 && len(batch.Metrics) == 1 &&
+		batch.Metrics[0].Name == "__src_client_write_err" && batch.Metrics[0].IsSetValue() && len(batch.Metrics[0].Value) == 1 &&
+		batch.Metrics[0].Tags["_h"] == hostTag && batch.Metrics[0].Tags["2"] == "1" {
+		return batch.Metrics[0].Value[0], true
+	}
+	return 0, false
+}
+
+// c31SlowConn is the connection handed to the real reportWouldBlockIfAny in the scenario
+// "report-over-slow-connection": its Write takes as long as it takes the producers to have a
+// few more packets refused (a slow upstream at the very moment of the report), then succeeds.
+type c31SlowConn struct {
+	v      *c31Env
+	frames int
+	bad    int
+}
+
+func (c *c31SlowConn) Write(b []byte) (int, error) {
+	v := c.v
+	if len(b) >= pktHeadLen && int(binary.LittleEndian.Uint32(b)) == len(b)-pktHeadLen {
+		if val, ok := c31ParseReport(b[pktHeadLen:], v.hostTag); ok {
+			v.reported.Add(int64(val))
+			v.reportFrames.Add(1)
+			c.frames++
+		} else {
+			c.bad++
+		}
+	} else {
+		c.bad++
+	}
+	v.mu.Lock()
+	d0 := v.nDropped
+	v.mu.Unlock()
+	for t0 := time.Now(); time.Since(t0) < 5*time.Second; time.Sleep(50 * time.Microsecond) {
+		v.mu.Lock()
+		d := v.nDropped
+		v.mu.Unlock()
+		if d >= d0+20 {
+			break
+		}
+	}
+	return len(b), nil
+}
+func (c *c31SlowConn) Read([]byte) (int, error)         { return 0, io.EOF }
+func (c *c31SlowConn) Close() error                     { return nil }
+func (c *c31SlowConn) LocalAddr() net.Addr              { return &net.TCPAddr{} }
+func (c *c31SlowConn) RemoteAddr() net.Addr             { return &net.TCPAddr{} }
+func (c *c31SlowConn) SetDeadline(time.Time) error      { return nil }
+func (c *c31SlowConn) SetReadDeadline(time.Time) error  { return nil }
+func (c *c31SlowConn) SetWriteDeadline(time.Time) error { return nil }
+
 // frame is called with c.up.mu held.
 func (c *c31Conn) frame(body []byte, now time.Time, scratch []byte) {
 	env := c.up.env
@@ -314,12 +376,10 @@ func (c *c31Conn) frame(body []byte, now time.Time, scratch []byte) {
 		env.noteDelivered(id)
 		return
 	}
-	var batch tlstatshouse.AddMetricsBatch
-	if rest, err := batch.ReadTL1Boxed(body); err == nil && len(rest) == 0 && len(batch.Metrics) == 1 &&
-		batch.Metrics[0].Name == "__src_client_write_err" && batch.Metrics[0].IsSetValue() && len(batch.Metrics[0].Value) == 1 &&
-		batch.Metrics[0].Tags["_h"] == env.hostTag && batch.Metrics[0].Tags["2"] == "1" {
-		c.reports = append(c.reports, batch.Metrics[0].Value[0])
-		env.reported.Add(int64(batch.Metrics[0].Value[0]))
+	if val, ok := c31ParseReport(body, env.hostTag); ok {
+		c.reports = append(c.reports, val)
+		env.reported.Add(int64(val))
+		env.reportFrames.Add(1)
 		return
 	}
 	c.foreign++
@@ -370,7 +430,9 @@ type c31Env struct {
 	lastAccept time.Time
 	empties    int
 
-	reported atomic.Int64
+	reported     atomic.Int64
+	reportFrames atomic.Int64
+	pushMu       sync.Mutex // serialises producers where per-packet outcomes are needed (the handler serialises them anyway)
 	hostTag  string
 	block    []byte
 	wantHS   []byte // "statshousev" '2' u32(len(host)) host — written from the documented handshake, not from fillDefaults
@@ -601,10 +663,58 @@ func (v *c31Env) ownedBySenderWithoutAddress(ids []uint64) bool {
 	return true
 }
 
+// shrinkSendBuffers emulates a host with a minimal TCP send buffer: it finds the balancer's own
+// client sockets (same process; peer port = one of this scenario's listeners) and sets SO_SNDBUF
+// to the minimum.  The balancer code is untouched; every write to such a socket, the 100-byte
+// write_err report included, then waits until the upstream has acknowledged what was written before.
+func (v *c31Env) shrinkSendBuffers() int {
+	ports := map[int]bool{}
+	for _, u := range v.ups {
+		if ta, ok := u.ln.Addr().(*net.TCPAddr); ok {
+			ports[ta.Port] = true
+		}
+	}
+	ents, err := os.ReadDir("/proc/self/fd")
+	if err != nil {
+		return 0
+	}
+	n := 0
+	for _, e := range ents {
+		fd, err := strconv.Atoi(e.Name())
+		if err != nil {
+			continue
+		}
+		psa, err := syscall.Getpeername(fd)
+		if err != nil {
+			continue
+		}
+		p4, ok := psa.(*syscall.SockaddrInet4)
+		if !ok || !ports[p4.Port] {
+			continue
+		}
+		lsa, err := syscall.Getsockname(fd)
+		if err != nil {
+			continue
+		}
+		if l4, ok := lsa.(*syscall.SockaddrInet4); !ok || ports[l4.Port] {
+			continue // the accepted (listener) side
+		}
+		if syscall.SetsockoptInt(fd, syscall.SOL_SOCKET, syscall.SO_SNDBUF, 4608) == nil {
+			n++
+		}
+	}
+	return n
+}
+
 func (v *c31Env) wakeSenders() {
 	// a spurious wake-up is always permitted for a sync.Cond waiter; it changes no data
 	v.e.pool.primary.buf.cond.Broadcast()
 	v.e.pool.secondary.buf.cond.Broadcast()
+}
+
+// pendingReport: dropped bytes the senders still hold for the next report.
+func (v *c31Env) pendingReport() int64 {
+	return v.e.pool.primary.wouldBlockBytes.Load() + v.e.pool.secondary.wouldBlockBytes.Load()
 }
 
 func (v *c31Env) reportsComplete() bool {
@@ -637,11 +747,12 @@ func (v *c31Env) quiesce() {
 		return
 	}
 	states := v.bufStates()
+	wiped := len(stuck) == 0 && !repOK && v.pendingReport() == 0
 	// root-cause discriminator: wake the senders without touching any data.  If that alone gets
 	// everything forwarded, the senders were asleep in pktBuffer.swap past the batch timeout.
 	v.wakeSenders()
 	t1 := time.Now().Add(c31DelayMax)
-	for polls := 0; !(v.allDelivered() && v.reportsComplete()) && (time.Now().Before(t1) || polls < 400); polls++ {
+	for polls := 0; !wiped && !(v.allDelivered() && v.reportsComplete()) && (time.Now().Before(t1) || polls < 400); polls++ {
 		time.Sleep(20 * time.Millisecond)
 		v.wakeSenders()
 		if polls >= 150 && v.ownedBySenderWithoutAddress(v.stuckNow()) {
@@ -682,11 +793,17 @@ func (v *c31Env) quiesce() {
 	if !repOK && v.e.stats.writeErrors.Load() > 0 {
 		v.r.NotJudged("drop_report_possibly_lost_with_a_failed_connection", 1)
 	} else if !repOK {
-		if v.reportsComplete() {
+		extra["pending_in_counters"] = v.pendingReport()
+		extra["report_frames"] = v.reportFrames.Load()
+		switch rep, pend := v.reported.Load(), v.pendingReport(); {
+		case rep >= v.droppedB:
 			v.r.Count("drops.report_released_by_wakeup", 1)
-			v.viol(c31KeyTimer, fmt.Sprintf("%d dropped bytes were counted but only %d reported upstream 15 s after traffic stopped; a bare Broadcast on the buffer's condition variable got the report sent: the batch timer had expired without waking the sender", v.droppedB, extra["reported_bytes_at_15s_or_later"]), extra)
-		} else {
-			v.viol(c31KeyDropRep, fmt.Sprintf("%d dropped bytes counted, %d reported upstream even after waking the senders", v.droppedB, v.reported.Load()), extra)
+			v.viol(c31KeyTimer, fmt.Sprintf("%d dropped bytes were counted but the report was still not upstream 15 s after traffic stopped; a bare Broadcast on the buffer's condition variable got it sent: the batch timer had expired without waking the sender", v.droppedB), extra)
+		case rep+pend >= v.droppedB:
+			v.viol(c31KeyDropLate, fmt.Sprintf("%d dropped bytes counted, %d reported upstream, %d still held by the senders 15 s after traffic stopped and after waking them", v.droppedB, rep, pend), extra)
+		default:
+			v.viol(c31KeyDropRep, fmt.Sprintf("the harness saw %d bytes refused (both buffers full) in %d packets; %d bytes were reported upstream in %d write_err frames and the senders hold %d more: %d dropped bytes were never reported and never will be (no write error, no connection lost)",
+				v.droppedB, v.nDropped, rep, v.reportFrames.Load(), pend, v.droppedB-rep-pend), extra)
 		}
 	}
 }
@@ -913,6 +1030,14 @@ func (v *c31Env) judge() {
 			}
 		}
 	}
+	if v.single && stats.WriteErrors == 0 && injected == 0 && v.nUnknown == 0 {
+		if rep, pend := v.reported.Load(), v.pendingReport(); rep+pend > v.droppedB {
+			v.viol(c31KeyDropMore, fmt.Sprintf("%d bytes were refused, yet %d bytes were reported upstream and %d more are held for the next report", v.droppedB, rep, pend), nil)
+		} else if rep+pend == v.droppedB && v.droppedB > 0 {
+			v.r.Count("drops.scenarios_with_exact_report_total", 1)
+		}
+	}
+	v.r.Count("drops.report_frames", v.reportFrames.Load())
 	v.r.Count("packets.offered", int64(len(v.pushOrder)))
 	v.r.Count("packets.accepted_known", int64(v.nAccepted))
 	v.r.Count("packets.dropped", int64(v.nDropped))
@@ -1025,6 +1150,8 @@ func c31RunScenario(r *verifkit.Run, sc *c31Scenario) {
 	nDel := len(v.delivered)
 	nontrivial := nDel > 0
 	switch sc.Kind {
+	case "overflow-while-reporting", "report-over-slow-connection":
+		nontrivial = nontrivial && v.nDropped > 0 && v.reportFrames.Load() >= 2
 	case "stall-overflow", "single-address-overflow":
 		nontrivial = nontrivial && v.nDropped > 0
 	case "upstream-hang-failover":
@@ -1067,6 +1194,16 @@ func c31RunScenario(r *verifkit.Run, sc *c31Scenario) {
 			}
 		}
 		rel := func(t time.Time) string { return fmt.Sprintf("%+.2fs", t.Sub(v.started).Seconds()) }
+		perUp := ""
+		for ui, u := range v.ups {
+			nf, nr := 0, 0
+			for _, c := range u.conns {
+				nf += len(c.frames)
+				nr += len(c.reports)
+			}
+			perUp += fmt.Sprintf(" up%d:conns=%d,frames=%d,reports=%d", ui, len(u.conns), nf, nr)
+		}
+		defer func() { r.T.Logf("C31 scenario %d per upstream:%s", sc.Index, perUp) }()
 		r.T.Logf("C31 scenario %d %s (%s): pushes %s..%s, arrivals %s..%s, end %s, offered %d arrived %d dropped %d write_err %d", sc.Index, sc.Kind, sc.Params,
 			rel(firstPush), rel(lastPush), rel(firstArr), rel(lastArr), rel(time.Now()), len(v.pushOrder), nDel, v.nDropped, v.stats.WriteErrors)
 	}
@@ -1101,7 +1238,7 @@ func c31Sizes(rnd *rand.Rand, class string) int {
 
 func c31Scenarios(r *verifkit.Run) []*c31Scenario {
 	rnd := r.Rand("scenarios")
-	kinds := []string{"lone-after-idle", "pair", "small-burst", "burst-with-tail", "sparse-fast", "sparse-slow", "multi-producer", "edge-sizes", "upstream-close", "stall-overflow", "late-upstream", "burst-with-tail", "pair", "stall-overflow", "upstream-close", "upstream-hang-failover", "small-burst", "edge-sizes", "multi-producer", "single-address-overflow"}
+	kinds := []string{"lone-after-idle", "pair", "small-burst", "burst-with-tail", "sparse-fast", "sparse-slow", "multi-producer", "edge-sizes", "upstream-close", "stall-overflow", "late-upstream", "burst-with-tail", "pair", "stall-overflow", "upstream-close", "upstream-hang-failover", "overflow-while-reporting", "report-over-slow-connection", "multi-producer", "single-address-overflow"}
 	n := r.N(20, 240)
 	var out []*c31Scenario
 	for i := 0; i < n; i++ {
@@ -1270,6 +1407,113 @@ func c31Scenarios(r *verifkit.Run) []*c31Scenario {
 					if d >= sc.wantDrops || n >= 800 && v.e.stats.writeErrors.Load() > 0 {
 						break
 					}
+				}
+			}
+		case "report-over-slow-connection":
+			// component-level: the real reportWouldBlockIfAny of the primary sender is driven with a
+			// connection whose Write is slow, while a real producer keeps having packets refused by the
+			// real, overflowing buffers (both upstreams stalled, so the senders' own loops sit in a
+			// blocked write and do not report meanwhile).  With real sockets the 100-byte report never
+			// blocks (the kernel appends it to the unsent tail), so this window is not reachable there.
+			// Afterwards the upstreams read again and the real loops report the rest.
+			sc.faultFree = false
+			sc.stall = true
+			sc.cfg.WriteTimeout = 10 * time.Minute
+			sc.cfg.StuckReconDelay = time.Hour
+			calls := 8 + rnd.IntN(20)
+			sc.Params = fmt.Sprintf("report_calls=%d", calls)
+			sc.run = func(v *c31Env) {
+				var stop atomic.Bool
+				var wg sync.WaitGroup
+				wg.Add(1)
+				go func() {
+					defer wg.Done()
+					pr, buf := mk()
+					for i := uint64(1); !stop.Load() && i < 400000; i++ {
+						v.push(i, 100+pr.IntN(2000), buf)
+					}
+				}()
+				dropped := func() int { v.mu.Lock(); defer v.mu.Unlock(); return v.nDropped }
+				for t0 := time.Now(); dropped() < 200 && time.Since(t0) < 120*time.Second; {
+					time.Sleep(time.Millisecond)
+				}
+				snd := v.e.pool.primary
+				stub := &c31SlowConn{v: v}
+				m := snd.getWriteErrM()
+				scratch := make([]byte, 0, pktHeadLen)
+				for k := 0; k < calls && dropped() >= 200; k++ {
+					scratch = snd.reportWouldBlockIfAny(stub, m, scratch)
+					d0 := dropped()
+					for t0 := time.Now(); dropped() < d0+10 && time.Since(t0) < 5*time.Second; {
+						time.Sleep(50 * time.Microsecond)
+					}
+				}
+				stop.Store(true)
+				wg.Wait()
+				v.r.Count("slowconn.report_frames", int64(stub.frames))
+				if stub.bad > 0 {
+					v.viol(c31KeyForeign, fmt.Sprintf("reportWouldBlockIfAny wrote %d frame(s) that are not a well-formed write_err report", stub.bad), nil)
+				}
+				for _, u := range v.ups {
+					u.stalled.Store(false)
+				}
+			}
+		case "overflow-while-reporting":
+			// slow upstreams (2 KB per read, then a pause): every write, the write of a write_err report
+			// included, takes long.  Several producers keep both buffers overflowing, so packets are being
+			// refused while reports are in flight.  Driven by state: until enough report frames have
+			// arrived upstream; then the upstreams read at full speed, everything drains, and the report
+			// total must equal the refused bytes exactly.
+			sc.faultFree = false
+			sc.cfg.WriteTimeout = 10 * time.Minute
+			sc.cfg.StuckReconDelay = time.Hour
+			sc.stall = true // small receive buffers; un-stalled right away, throttled instead
+			np := 2 + rnd.IntN(3)
+			pause := 100 + rnd.IntN(400)
+			wantReports := int64(40 + rnd.IntN(20))
+			base := []int{2200, 1000, 4000, 300}[(i/len(kinds))%4]
+			if os.Getenv("VERIF_C31_BASE") != "" { // experiments only
+				base, _ = strconv.Atoi(os.Getenv("VERIF_C31_BASE"))
+			}
+			sc.Params = fmt.Sprintf("producers=%d read_pause=%dus reports>=%d size~%d", np, pause, wantReports, base)
+			sc.run = func(v *c31Env) {
+				for _, u := range v.ups {
+					u.throttleUs.Store(int64(pause))
+					u.stalled.Store(false)
+				}
+				v.r.Count("overflow.balancer_sockets_with_minimal_send_buffer", int64(v.shrinkSendBuffers()))
+				var stop atomic.Bool
+				var total atomic.Int64
+				var wg sync.WaitGroup
+				for p := 0; p < np; p++ {
+					wg.Add(1)
+					go func(p int) {
+						defer wg.Done()
+						pr := rand.New(rand.NewPCG(seed, uint64(p)))
+						buf := make([]byte, pktBodyMax)
+						for i := uint64(1); !stop.Load(); i++ {
+							size := base + pr.IntN(base/5)
+							v.pushMu.Lock()
+							v.push(uint64(p+1)<<32|i, size, buf)
+							v.pushMu.Unlock()
+							if total.Add(1) >= 200000 {
+								stop.Store(true)
+							}
+						}
+					}(p)
+				}
+				for t0 := time.Now(); !stop.Load() && time.Since(t0) < 120*time.Second; time.Sleep(5 * time.Millisecond) {
+					v.mu.Lock()
+					d := v.nDropped
+					v.mu.Unlock()
+					if v.reportFrames.Load() >= wantReports && d >= 2000 {
+						break
+					}
+				}
+				stop.Store(true)
+				wg.Wait()
+				for _, u := range v.ups {
+					u.throttleUs.Store(0)
 				}
 			}
 		case "upstream-close":
